@@ -86,7 +86,16 @@ def tlc(module, cfg, workers=8, timeout=900, simulate=None, depth=None, env=None
         cmd += extra
     cmd += [module + ".tla"]
     t = time.time()
-    r = run(cmd, cwd=SPEC, timeout=timeout, env=env, check=False)
+    r = None
+    for attempt in (1, 2):
+        r = _run_watched(cmd, SPEC, timeout, env)
+        if r is not None:
+            break
+        log(f"[tlc] {name}: TLC stopped using the processor without finishing (a deadlock inside its disk queue was seen once) - started again")
+        shutil.rmtree(meta, ignore_errors=True)
+        os.makedirs(meta, exist_ok=True)
+    if r is None:
+        raise ToolError(f"TLC stalled twice: {name}")
     shutil.rmtree(meta, ignore_errors=True)
     out = r.stdout or ""
     res = {"stdout": out, "wall_s": time.time() - t, "rc": r.returncode, "replay": [], "prints": []}
@@ -114,6 +123,40 @@ def tlc(module, cfg, workers=8, timeout=900, simulate=None, depth=None, env=None
         cov[mm.group(1)] = cov.get(mm.group(1), 0) + int(mm.group(4))
     res["coverage"] = cov
     return res
+
+
+def _run_watched(cmd, cwd, timeout, env):
+    """run() for TLC with a stall watchdog: a JVM that lives but has used no processor time for three minutes is killed
+    (returns None); a timeout is a ToolError as everywhere else."""
+    import threading, types
+    e = dict(os.environ)
+    e.update({"CARGO_NET_OFFLINE": "true"})
+    if env:
+        e.update(env)
+    p = subprocess.Popen(cmd, cwd=cwd, env=e, stdout=subprocess.PIPE, stderr=subprocess.STDOUT, text=True, errors="replace")
+    chunks = []
+    th = threading.Thread(target=lambda: chunks.append(p.stdout.read()), daemon=True)
+    th.start()
+    def cpu():
+        try:
+            f = open(f"/proc/{p.pid}/stat").read().rsplit(")", 1)[1].split()
+            return int(f[11]) + int(f[12])
+        except Exception:
+            return -1
+    t0, last, last_t = time.time(), cpu(), time.time()
+    while p.poll() is None:
+        time.sleep(2)
+        now = cpu()
+        if now != last:
+            last, last_t = now, time.time()
+        elif time.time() - last_t > 180:
+            p.kill(); p.wait(); th.join(10)
+            return None
+        if timeout and time.time() - t0 > timeout:
+            p.kill(); p.wait()
+            raise ToolError(f"timeout after {timeout}s: {' '.join(cmd[:6])}")
+    th.join(30)
+    return types.SimpleNamespace(returncode=p.returncode, stdout="".join(x or "" for x in chunks))
 
 
 def tlc_error_text(res, n=40):
